@@ -1267,8 +1267,14 @@ static void llc_info_case(Src& s, Ctx& ctx) {
         want.insert(want.end(), payload.begin(), payload.end());
         VCHECK(ctx, y == want, sig + ":wire-value", hist << " serialises as " << verif::hex(y, 48) << ", expected " << verif::hex(want, 48));
         if (y == want) {   // a parser keeps the header fields (libtins does not rebuild information fields: they come back as payload)
-            LLC q(y.data(), (uint32_t)y.size());
-            VCHECK(ctx, q.dsap() == dsap && q.ssap() == ssap && q.type() == (uint8_t)fmt && q.modifier_function() == l->modifier_function(), sig + ":reparse-differs", hist);
+            try {
+                LLC q(y.data(), (uint32_t)y.size());
+                VCHECK(ctx, q.dsap() == dsap && q.ssap() == ssap && q.type() == (uint8_t)fmt && q.modifier_function() == l->modifier_function(), sig + ":reparse-differs", hist);
+            } catch (const malformed_packet&) {
+                // SAP 0x42 announces a spanning-tree BPDU: the few random octets behind the header are not one, so the parser
+                // rejects the frame - nothing to do with the LLC header fields that this block is about
+                ctx.label("llc-reparse-payload-rejected");
+            }
         }
     }
     ctx.label("llc-info-block");
